@@ -3,7 +3,7 @@ from __future__ import annotations
 
 import ast
 
-from sa.loader import norm, norm1, walk_shallow, own_nodes, call_name
+from sa.loader import recv, norm, norm1, walk_shallow, own_nodes, call_name
 from sa.tables import fold, Unfoldable
 from sa.rulekit import (nodes_where, node_calls, node_roots, handlers_in, handler_reraises,
                         catches_broad, nodes_calling)
@@ -173,7 +173,7 @@ def run(ck):
              ((n.kind == 'test' and isinstance(n.stmt, ast.While)) or n.kind == 'for')]
     for lp in inner:
         body_start = [g.nodes[v] for v, lab in g.succ[lp.id] if lab in ('true', 'iter')]
-        removing = nodes_where(g, lambda n: any(call_name(c) == 'get_nowait' and sl.is_queue(c.func.value)
+        removing = nodes_where(g, lambda n: any(call_name(c) == 'get_nowait' and (isinstance(c.func, ast.Attribute) and sl.is_queue(c.func.value))
                                                 for c in node_calls(n)))
         p = g.path_avoiding(body_start[0], [lp], avoid=removing) if body_start else None
         test_ok = lp.kind == 'test' and any(f"{q}.empty()" in norm(lp.ast) for q in sl.queue_aliases)
